@@ -109,6 +109,8 @@ func (in *Interp) lookupNative(fn *ssa.Function) nativeFn {
 			return natKnown
 		case "Reached":
 			return natReached
+		case "IsNil":
+			return natIsNil
 		}
 	}
 	return nil
@@ -1201,4 +1203,85 @@ func natUnicodeMap(f func(rune) rune) nativeFn {
 func (in *Interp) callNativeValue(cl *Closure, args []Value) Value {
 	unsup("native function value %s", cl.Native)
 	return nil
+}
+
+func natIsNil(in *Interp, fn *ssa.Function, args []Value) Value {
+	x := args[0].(Iface)
+	if x.T == nil {
+		return in.tb.True
+	}
+	switch v := x.V.(type) {
+	case *Ptr:
+		return in.tb.Bool(v.P == nil)
+	case *Slice:
+		return in.tb.Bool(v.Nil)
+	case *Map:
+		return in.tb.Bool(v.Nil)
+	case *Closure:
+		return in.tb.Bool(v.Fn == nil && v.Builtin == nil && v.Native == "")
+	}
+	return in.tb.False
+}
+
+func init() {
+	nativeTable["strings.IndexAny"] = natIndexAny
+	nativeTable["strings.ContainsAny"] = func(in *Interp, fn *ssa.Function, args []Value) Value {
+		idx := natIndexAny(in, fn, args).(*Term)
+		return in.tb.Le(in.tb.Int(0), idx)
+	}
+	nativeTable["strings.ContainsRune"] = func(in *Interp, fn *ssa.Function, args []Value) Value {
+		idx := natIndexRune(in, fn, args).(*Term)
+		return in.tb.Le(in.tb.Int(0), idx)
+	}
+	nativeTable["strings.TrimLeft"] = func(in *Interp, fn *ssa.Function, args []Value) Value {
+		return in.trimSet(args[0].(Str), args[1].(Str), true, false)
+	}
+	nativeTable["strings.TrimRight"] = func(in *Interp, fn *ssa.Function, args []Value) Value {
+		return in.trimSet(args[0].(Str), args[1].(Str), false, true)
+	}
+	nativeTable["strings.Trim"] = func(in *Interp, fn *ssa.Function, args []Value) Value {
+		return in.trimSet(args[0].(Str), args[1].(Str), true, true)
+	}
+}
+
+func (in *Interp) asciiCutset(chars Str, what string) ByteSet {
+	cs, ok := chars.Concrete()
+	if !ok {
+		unsup("%s with symbolic character set", what)
+	}
+	var set ByteSet
+	for i := 0; i < len(cs); i++ {
+		if cs[i] >= 0x80 {
+			unsup("%s with non-ASCII character set", what)
+		}
+		set.Add(int(cs[i]))
+	}
+	return set
+}
+
+func natIndexAny(in *Interp, fn *ssa.Function, args []Value) Value {
+	s := args[0].(Str)
+	set := in.asciiCutset(args[1].(Str), "strings.IndexAny")
+	tb := in.tb
+	res := tb.Int(-1)
+	for i := len(s.B) - 1; i >= 0; i-- {
+		res = tb.Ite(tb.InSet(s.B[i], set), tb.Int(int64(i)), res)
+	}
+	return res
+}
+
+func (in *Interp) trimSet(s, chars Str, left, right bool) Value {
+	set := in.asciiCutset(chars, "strings.Trim")
+	lo, hi := 0, len(s.B)
+	if left {
+		for lo < hi && in.branch(in.tb.InSet(s.B[lo], set)) {
+			lo++
+		}
+	}
+	if right {
+		for hi > lo && in.branch(in.tb.InSet(s.B[hi-1], set)) {
+			hi--
+		}
+	}
+	return Str{s.B[lo:hi]}
 }
